@@ -490,4 +490,40 @@ def witness (name : String) (v : Variant) : Option (Cfg × List Label) :=
     (if v.submitLocked && !v.joinFixed then some (cexJoinSnapCfg, cexJoinSnap v) else none)
   else none
 
+/-! ### the two-step pipeline `solve_end_to_end` (solve.py): unsat-core shortcut, first job, refinement, second job -/
+
+/-- what one solver job does -/
+inductive Reply where
+  | satValid      -- prints `sat` and a model without `f_evm_` symbols
+  | satInvalid    -- prints `sat` and a model that mentions `f_evm_` (abstraction of mul/div: needs refinement)
+  | unsat | unknown
+  | hang          -- exceeds the time limit: TimeoutExpired, killed
+  | crash         -- dies without a verdict line (non-zero exit, empty stdout)
+  | garbage       -- first line is not sat/unsat/unknown
+  | noStart       -- Popen itself fails: the exception propagates out of solve_low_level
+  deriving DecidableEq, Repr
+
+/-- `solve_low_level` for one job (`future.result()`, `except TimeoutExpired`, `SolverOutput.from_result`) -/
+def classify : Reply → Out
+  | .satValid => .sat
+  | .satInvalid => .sat
+  | .unsat => .unsat
+  | .unknown => .unknown
+  | .hang => .unknown
+  | .crash => .err
+  | .garbage => .err
+  | .noStart => .raisedOther
+
+/-- `solve_end_to_end`: `coreHit` = the query contains a known unsat core (no solver run); `isRefined` = the context is
+already refined; `changes` = `refine` changes the query text. The second job runs iff the first one answered sat with
+an invalid model, the context is not refined yet and refinement changes the query; then its classification is the result. -/
+def pipeline (coreHit isRefined changes : Bool) (r1 r2 : Reply) : Out :=
+  if coreHit then .unsat
+  else if r1 = .satInvalid ∧ isRefined = false ∧ changes = true then classify r2
+  else classify r1
+
+/-- number of solver jobs `solve_end_to_end` starts -/
+def pipelineJobs (coreHit isRefined changes : Bool) (r1 : Reply) : Nat :=
+  if coreHit then 0 else if r1 = .satInvalid ∧ isRefined = false ∧ changes = true then 2 else 1
+
 end HalmosVerif.Model.Popen
